@@ -1,6 +1,10 @@
 pub mod h_comb {
     include!(concat!(env!("CHUMSKY_VERIF_DIR"), "/h_comb.rs"));
 }
+pub mod h_prim {
+    include!(concat!(env!("CHUMSKY_VERIF_DIR"), "/h_prim.rs"));
+}
 pub fn register_all(r: &mut Vec<(&'static str, fn())>) {
     h_comb::register(r);
+    h_prim::register(r);
 }
